@@ -1,13 +1,19 @@
 #!/bin/bash
-# tools/try_seed.sh <seed-dir> <property>... : apply a seeded change to /repo, run the quick checks, undo.
+# tools/try_seed.sh <seed-dir> <property>... : apply a seeded change to a scratch worktree of /repo and run the
+# quick checks against it (vcheck --repo), with a scratch verif root so that /verif/evidence and /repo stay untouched.
 set -u
+export GOFLAGS=-mod=mod GOPROXY=off GOSUMDB=off GOTOOLCHAIN=local GOMEMLIMIT=${GOMEMLIMIT:-16GiB}
 SEED="$1"; shift
-cd /repo || exit 2
-if [ -n "$(git status --porcelain --untracked-files=no)" ]; then echo "/repo not clean" >&2; exit 2; fi
-git apply "$SEED/patch.diff" || { echo "patch does not apply" >&2; exit 2; }
-trap 'git -C /repo checkout -- . ' EXIT
+ID=$(basename $SEED)
+WT=/tmp/seedtry-$ID; VR=/tmp/seedtry-$ID-verif
+git -C /repo worktree add -q --detach "$WT" HEAD || exit 2
+trap 'git -C /repo worktree remove --force "$WT"; rm -rf "$VR"' EXIT
+git -C "$WT" apply "$SEED/patch.diff" || { echo "patch does not apply" >&2; exit 2; }
+mkdir -p "$VR/evidence" "$VR/replays"
+cp -r /verif/harness "$VR/harness"; for f in known_findings.jsonl properties.jsonl tools MANIFEST.json; do ln -s /verif/$f "$VR/$f"; done
+[ -x /verif/engine/vcheck ] || (cd /verif/engine && go build -o vcheck ./cmd/vcheck)
 for p in "$@"; do
-  s=$(date +%s); (cd /verif && timeout 3000 bin/check $p --tier ${TIER:-quick} > /tmp/seed_$(basename $SEED)_$p.log 2>&1); rc=$?; e=$(date +%s)
-  echo "$(basename $SEED) $p rc=$rc wall=$((e-s))s violations=$(grep -c '^VIOLATION' /tmp/seed_$(basename $SEED)_$p.log) inconclusive=$(grep -c '^INCONCLUSIVE' /tmp/seed_$(basename $SEED)_$p.log)"
-  grep "^violation" /tmp/seed_$(basename $SEED)_$p.log | cut -c1-160 | head -5
+  s=$(date +%s); timeout 3000 /verif/engine/vcheck run $p --verif "$VR" --repo "$WT" --tier ${TIER:-quick} > /tmp/seed_${ID}_$p.log 2>&1; rc=$?; e=$(date +%s)
+  echo "$ID $p rc=$rc wall=$((e-s))s violations=$(grep -c '^VIOLATION' /tmp/seed_${ID}_$p.log) inconclusive=$(grep -c '^INCONCLUSIVE' /tmp/seed_${ID}_$p.log)"
+  grep "^violation" /tmp/seed_${ID}_$p.log | cut -c1-160 | head -5
 done
